@@ -143,6 +143,18 @@ structure Signer where
   rules : List (Bool × Cond) := []
 deriving Repr, Inhabited
 
+/-- what a contract does when NEP-17 tokens are paid to it (postTransfer, native_nep17.go:188-243, calls
+onNEP17Payment of a deployed `to`).  `wallet`: the helper contract of the harness (contracts.go) — null data is
+accepted, an array [hash, method, args] makes it call the native named (the nested calls follow on the op lines),
+any other data makes it throw.  `noCallback`: a contract without onNEP17Payment (the call fails).  `accepts`: a
+contract that accepts every payment made by a transfer (the native Treasury). -/
+inductive CKind | wallet | noCallback | accepts
+deriving Repr, DecidableEq, Inhabited
+
+/-- the shape of the `data` argument of a transfer as a Wallet contract sees it. -/
+inductive DataKind | null | call | other
+deriving Repr, DecidableEq, Inhabited
+
 /-- chain constants and the execution context. -/
 structure Env where
   /-- account of the Notary contract -/
@@ -174,6 +186,8 @@ structure Env where
   msig : List (Nat × List Nat) := []
   /-- signers of the transaction being executed -/
   signers : List Signer := []
+  /-- the deployed contracts of the case that can be paid, with what their payment callback does -/
+  contracts : AL CKind := []
 deriving Repr, Inhabited
 
 /-- one `Transfer` notification (native_nep17.go:188-190 emitTransfer); the two ghost totals follow the GAS
@@ -860,6 +874,19 @@ inductive Recv
   | cb       -- calls back into the natives: the nested calls follow, closed by `endCb`
 deriving Repr, DecidableEq, Inhabited
 
+/-- what the payment callback of `dst` does with data of shape `dk` (an account without an entry in `contracts` is
+not a contract: no call). -/
+def recvOf (e : Env) (dst : Nat) (dk : DataKind) : Recv :=
+  match get e.contracts dst with
+  | none => .none
+  | some .noCallback => .throws
+  | some .accepts => .accept
+  | some .wallet =>
+    match dk with
+    | .null => .accept
+    | .call => .cb
+    | .other => .throws
+
 /-- the `data` argument as far as Notary / NEO look at it. -/
 inductive Data
   | other
@@ -872,12 +899,12 @@ inductive Op
   | block (idx : Nat)
   | onPersist (primary : Nat) (notaries : List Nat) (txs : List TxFee)
   | txBegin (sender : Nat) (signers : List Signer)
-  | transfer (t : Tok) (src dst : Nat) (amt : Int) (caller : Option Nat) (recv : Recv) (data : Data)
+  | transfer (t : Tok) (src dst : Nat) (amt : Int) (caller : Option Nat) (dk : DataKind) (data : Data)
   | vote (acc : Nat) (pub : Option Nat) (caller : Option Nat)
   | register (pub : Nat) (caller : Option Nat)
   | unregister (pub : Nat) (caller : Option Nat)
   | lock (acc : Nat) (till : Nat) (caller : Option Nat)
-  | withdraw (src : Nat) (dst : Option Nat) (caller : Option Nat) (recv : Recv)
+  | withdraw (src : Nat) (dst : Option Nat) (caller : Option Nat)
   | setGpb (gas : Int) (caller : Option Nat)
   | setRegPrice (price : Int) (caller : Option Nat)
   | blockAcc (acc : Nat) (caller : Option Nat)
@@ -1005,7 +1032,7 @@ def exec (s : St) (op : Op) : St :=
         match mintDists s.env s.cur f.d1 f.d2 with
         | none => s'.throw
         | some l => s'.done l .t
-  | .transfer t src dst amt caller recv data =>
+  | .transfer t src dst amt caller dk data =>
     if s.failing then s
     else
       -- assumption A3: only the Notary contract itself has a witness for its own account (it signs with scope None)
@@ -1013,8 +1040,8 @@ def exec (s : St) (op : Op) : St :=
       | .thr => s.throw
       | .ret l b =>
         let s' := s.done l (resOf b)
-        if recv = .cb then { s' with skip := 1 } else s'
-      | .posted l d1 d2 => afterPosted s t l src dst amt recv data d1 d2
+        if recvOf s.env dst dk = .cb then { s' with skip := 1 } else s'
+      | .posted l d1 d2 => afterPosted s t l src dst amt (recvOf s.env dst dk) data d1 d2
   | .vote acc pub caller =>
     if s.failing then s
     else
@@ -1039,7 +1066,7 @@ def exec (s : St) (op : Op) : St :=
     else
       let (l, b) := lockDeposit s.env s.cur acc till (witOf s.env acc caller s.env.notary)
       s.done l (resOf b)
-  | .withdraw src dst caller recv =>
+  | .withdraw src dst caller =>
     if s.failing then s
     else
       match withdrawPre s.env s.cur src (witOf s.env src caller s.env.notary) with
@@ -1049,7 +1076,7 @@ def exec (s : St) (op : Op) : St :=
         match transferPre .gas s.env l s.env.notary to amt true with
         | .thr => s.throw
         | .ret _ _ => s.throw          -- "`transfer` returned false" panic (341-343) / unreachable true without post
-        | .posted l' d1 d2 => afterPosted s .gas l' s.env.notary to amt recv .other d1 d2
+        | .posted l' d1 d2 => afterPosted s .gas l' s.env.notary to amt (recvOf s.env to .null) .other d1 d2
   | .setGpb gas caller =>
     if s.failing then s
     else
@@ -1085,7 +1112,7 @@ def Op.isCall : Op → Bool
 
 /-- the contract that makes the call (`none`: the entry script, or not a call). -/
 def Op.caller : Op → Option Nat
-  | .transfer _ _ _ _ c _ _ | .vote _ _ c | .register _ c | .unregister _ c | .lock _ _ c | .withdraw _ _ c _
+  | .transfer _ _ _ _ c _ _ | .vote _ _ c | .register _ c | .unregister _ c | .lock _ _ c | .withdraw _ _ c
   | .setGpb _ c | .setRegPrice _ c | .blockAcc _ c | .unblockAcc _ c => c
   | _ => none
 
@@ -1101,7 +1128,7 @@ def callerBlocked (s : St) (op : Op) : Bool :=
 def step (s : St) (op : Op) : St :=
   if s.skip > 0 ∧ op.isCall then
     match op with
-    | .transfer _ _ _ _ _ .cb _ => { s with skip := s.skip + 1 }
+    | .transfer _ _ dst _ _ dk _ => if recvOf s.env dst dk = .cb then { s with skip := s.skip + 1 } else s
     | .endCb => { s with skip := s.skip - 1 }
     | _ => s
   else if callerBlocked s op then s.throw
